@@ -233,6 +233,7 @@ type FuncResult struct {
 	Returns   int
 	Unknown   map[string]int
 	Trusted   map[string]bool
+	Used      map[string]bool // concrete functions whose contract this proof relied on
 	Inlined   map[string]bool
 	Assumed   map[string]bool
 	Prelude   string
@@ -253,7 +254,7 @@ func (e *Engine) VerifyFunction(key string, property string, safety bool) (res *
 	}
 	ct := e.db.Contracts[key]
 	c := &Ctx{eng: e, reg: NewRegistry(), fn: fn, contract: ct, property: property, maxPaths: 4000,
-		unknownCalls: map[string]int{}, trustedUsed: map[string]bool{}, inlined: map[string]bool{}, ifaceTypes: map[string]types.Type{},
+		unknownCalls: map[string]int{}, trustedUsed: map[string]bool{}, usedContracts: map[string]bool{}, inlined: map[string]bool{}, ifaceTypes: map[string]types.Type{},
 		instrOrd: map[ssa.Instruction]int{}, memSorts: map[string]string{}, safety: safety, usedPures: map[string]bool{}, assumedClauses: map[string]bool{}, skippedAtReturn: map[string]int{}}
 	if ct != nil {
 		if v, ok := ct.FlagArgs["maxpaths"]; ok {
@@ -278,6 +279,7 @@ func (e *Engine) VerifyFunction(key string, property string, safety bool) (res *
 		res.Returns = c.returns
 		res.Unknown = c.unknownCalls
 		res.Trusted = c.trustedUsed
+		res.Used = c.usedContracts
 		res.Inlined = c.inlined
 		res.Assumed = c.assumedClauses
 		if c.foreignUsed {
